@@ -954,7 +954,11 @@ class AdapterRegistry(BaseAdapterRegistry):
     def __init__(self, bases=()):
         # AdapterRegisties are invalidating registries, so
         # we need to keep track of our invalidating subregistries.
-        self._v_subregistries = weakref.WeakKeyDictionary()
+        # ``rebuild()`` runs ``__init__`` again on a live registry:
+        # the registries below us are still there and still have to
+        # be told about our changes.
+        if self.__dict__.get('_v_subregistries') is None:
+            self._v_subregistries = weakref.WeakKeyDictionary()
 
         super().__init__(bases)
 
